@@ -389,7 +389,9 @@ func (g *VG) JSON(depth int, top int) any {
 	case 4, 5:
 		return g.str()
 	case 6:
-		return json.Number([]string{"0", "-0", "1", "12345678901234567890123", "1.5e300", "-3.25", "1E-9"}[g.R.IntN(7)])
+		// valid JSON number literals, including ones no float64 or int64 can hold
+		return json.Number([]string{"0", "-0", "1", "12345678901234567890123", "1.5e300", "-3.25", "1E-9", "1e400", "-2.5E+309", "1e-400", "9007199254740993",
+			"1" + strings.Repeat("0", 320), "-" + strings.Repeat("9", 40) + "." + strings.Repeat("9", 40), "0.1e+1", "18446744073709551616"}[g.R.IntN(15)])
 	case 7:
 		return []any{nil, 0, "", 0.0, false, []any{}, map[string]any{}, []any(nil), map[string]any(nil)}[g.R.IntN(9)]
 	case 8, 10:
